@@ -293,7 +293,12 @@ def _rational_limit(ctx, mdl):
         try:
             paths = explore(ctx.model, lambda it: it.call(it.closure_of('polytools.rational_limit'), [f, g, t0], {}))
         except Undecidable as e:
-            ctx.undecided('R19.5', fi.qualname, 'deg f=%d g=%d' % (df, dg), str(e), where=where(fi))
+            if 'call depth exceeded' in str(e):
+                ctx.violation('R19.5', fi.qualname, "L'Hopital case table, deg f=%d g=%d" % (df, dg),
+                              'the recursion does not terminate on polynomials of bounded degree: both arguments must be '
+                              'differentiated so that the degrees strictly decrease', where=where(fi))
+            else:
+                ctx.undecided('R19.5', fi.qualname, 'deg f=%d g=%d' % (df, dg), str(e), where=where(fi))
             continue
         problems = []
         nret = 0
